@@ -508,6 +508,64 @@ def mps_dense(fam, psi, N):
     return out
 
 
+# ----------------------------------------------------------------------------------------------------
+# gauges: the same dense state held in a different (valid) MPS representation
+# ----------------------------------------------------------------------------------------------------
+# The property speaks about "the dense state": every observable may depend on the MPS only through its dense vector
+# (site tensors contracted, times psi.factor).  A user's state is rarely "as generated": algorithms leave it canonised to
+# 'first' or to 'last', in a mixed canonical form around some site, after an SVD sweep, with the norm kept in psi.factor or
+# dropped.  All of these go through public MpsMpoOBC methods only; the reference is always recomputed from the prepared
+# MPS itself (mps_dense reads psi.A and psi.factor), so no assumption is made on what the sweeps do to the vector.
+GAUGES = ["raw", "first", "last", "last+first", "first+last", "mixed", "svd-last", "svd-first"]
+
+
+def rand_gauge(rng, p_raw=0.3):
+    """[gauge name, keep the norm in psi.factor (normalize=False)?]"""
+    if rng.random() < p_raw:
+        return ["raw", False]
+    return [rng.choice(GAUGES[1:]), rng.random() < 0.35]
+
+
+def apply_gauge(psi, gauge, rng):
+    """re-gauge psi in place with public methods; gauge = [name, keepnorm]; rng only picks the centre of 'mixed'."""
+    name, keep = gauge
+    nz = not keep
+    N = psi.N
+    if name == "raw":
+        return psi
+    if name in ("first", "last"):
+        psi.canonize_(to=name, normalize=nz)
+    elif name == "last+first":
+        psi.canonize_(to="last", normalize=nz).canonize_(to="first", normalize=nz)
+    elif name == "first+last":
+        psi.canonize_(to="first", normalize=nz).canonize_(to="last", normalize=nz)
+    elif name == "mixed":
+        # left-canonical below the centre c, right-canonical above it, centre tensor carries the norm
+        c = rng.randrange(N)
+        psi.canonize_(to="last", normalize=nz)
+        for n in range(N - 1, c, -1):
+            psi.orthogonalize_site_(n, to="first", normalize=nz)
+            psi.absorb_central_(to="first")
+    elif name == "svd-last":
+        psi.canonize_(to="first", normalize=nz)
+        psi.truncate_(to="last", opts_svd={"tol": 1e-13}, normalize=nz)
+    elif name == "svd-first":
+        psi.canonize_(to="last", normalize=nz)
+        psi.truncate_(to="first", opts_svd={"tol": 1e-13}, normalize=nz)
+    else:
+        raise ValueError(f"unknown gauge {name}")
+    return psi
+
+
+def gauge_tag(gauge):
+    return f"{gauge[0]}{'/keepnorm' if gauge[1] else ''}"
+
+
+def nonzero_state(fam, psi, N):
+    v = mps_dense(fam, psi, N)
+    return bool(np.all(np.isfinite(v)) and np.abs(v).max() > 0)
+
+
 def expect(fam, N, bra, ket, positions, names):
     X = term_apply(fam, N, list(range(N)), positions, names, ket)
     return complex(np.vdot(bra, X))
@@ -628,6 +686,18 @@ def check_measure_case(ctx, case):
         ctx.count(f"measure:{which}:no-admissible-state")
         return True
     bra, ket, nb, nk = st
+    gz = case.get("gauge")
+    if gz is not None:
+        # same dense states, other representation (zero vectors are left as generated: nothing to canonise)
+        try:
+            if nonzero_state(fam, ket, N):
+                apply_gauge(ket, gz[1], rng)
+            if bra is not ket and nonzero_state(fam, bra, N):
+                apply_gauge(bra, gz[0], rng)
+        except Exception as e:  # noqa: BLE001 - preparation (canonize_/truncate_) is outside C07: recorded, not judged
+            ctx.count(f"gauge:prep-raised:{type(e).__name__}")
+            return True
+        ctx.count(f"gauge:measure:{gz[1][0]}")
     vb, vk = mps_dense(fam, bra, N), mps_dense(fam, ket, N)
     opn = float(np.prod([max(1.0, np.abs(fam.table[nm][1]).sum(axis=1).max()) for nm in names]))
     scale = max(1.0, float(np.linalg.norm(vb) * np.linalg.norm(vk)) * opn)
@@ -711,8 +781,18 @@ def check_rdm_case(ctx, case):
     psi = int_mps(fam, N, rng.choice(adm), rng, cplx=True)
     if psi is None:
         return True
+    gz = case.get("gauge")
+    if gz is not None and nonzero_state(fam, psi, N):
+        try:
+            apply_gauge(psi, gz, rng)
+        except Exception as e:  # noqa: BLE001 - preparation is outside C07: recorded, not judged
+            ctx.count(f"gauge:prep-raised:{type(e).__name__}")
+            return True
+        ctx.count(f"gauge:rdm:{gz[0]}")
     v = mps_dense(fam, psi, N)
     k, d = len(sites), fam.d
+    # stratum of the candidate finding KEY_RDM_FACTOR: the norm of the state sits in psi.factor != 1
+    factor_stratum = abs(complex(psi.factor) - 1.0) > 1e-12
     try:
         rho = mps.rdm(psi, *sites)
         sp = fam.space
@@ -747,6 +827,23 @@ def check_rdm_case(ctx, case):
         ref[idx] = sg * np.vdot(v, X)
     scale = max(1.0, float(np.linalg.norm(v)) ** 2)
     err = float(np.abs(R - ref).max())
+    if factor_stratum:
+        # psi.factor != 1 (norm kept aside by canonize_(normalize=False)): own stratum, own key, never mixed with "c07:rdm"
+        if err <= 1e-9 * scale:
+            ctx.count("rdm:factor!=1:ok")
+            return True
+        ctx.count("rdm:factor!=1:mismatch")
+        what = (f"rdm(psi, {sites}) differs from the reduced density matrix of the dense state (psi.to_tensor(), which includes "
+                f"psi.factor = {float(abs(psi.factor)):.6g}) by {err:.3g}; measure_1site/measure_nsite on the same state do include "
+                f"the factor ({fam.key}, N={N}, gauge {gauge_tag(gz) if gz else 'raw'})")
+        if not key_registered(KEY_RDM_FACTOR):
+            note = (f"candidate defect {KEY_RDM_FACTOR} (not registered, no alarm): rdm ignores psi.factor, e.g. after "
+                    f"canonize_(normalize=False); example: {what}")
+            if not any(n.startswith(f"candidate defect {KEY_RDM_FACTOR}") for n in ctx.notes):
+                ctx.notes.append(note)
+            return True
+        ctx.fail("oracle", KEY_RDM_FACTOR, what, case=dict(case), concrete=True)
+        return False
     if err > 1e-9 * scale:
         ctx.fail("oracle", "c07:rdm", f"rdm(psi, {sites}) differs from the reduced density matrix of the dense state by {err:.3g} "
                  f"({fam.key}, N={N})", case=dict(case), concrete=True)
